@@ -409,7 +409,18 @@ class Client:
         kw = {}
         if self.bind:
             kw['local_addr'] = (self.bind, 0)
-        self.reader, self.writer = await asyncio.open_connection(self.host, self.port, limit=1 << 22, **kw)
+        self.refused = False
+        try:
+            self.reader, self.writer = await asyncio.open_connection(self.host, self.port, limit=1 << 22, **kw)
+        except OSError:
+            # nobody listens (the proxy died or was never up): behave like a connection that is closed at once; the
+            # check's liveness test on the proxy decides what that means
+            self.refused = True
+            self.reader = asyncio.StreamReader()
+            self.reader.feed_eof()
+            self.writer = None
+            self.rec.add('CRefused', c=self.name)
+            return self
         s = self.writer.get_extra_info('socket')
         try:
             s.setsockopt(socket.IPPROTO_TCP, socket.TCP_NODELAY, 1)
@@ -419,6 +430,8 @@ class Client:
         return self
 
     async def send(self, data):
+        if self.writer is None:
+            return False
         try:
             self.writer.write(data)
             await self.writer.drain()
